@@ -97,15 +97,15 @@ func BlockingPrograms() []Prog {
 	p := func(name, body string) Prog { return Prog{Name: "blocking/" + name, Class: "blocking", Src: prelude + body} }
 	return []Prog{
 		p("channel_pop_operator", "ch := Channel::[Int]()\nv := <<ch\no(v)\n"),
-		p("channel_pop_method", "ch := Channel::[Int]()\nv := ch.pop\no(v)\n"),
+		p("channel_pop_in_method", "def take(ch: Channel[Int]): Int\n  v := <<ch\n  1\nend\no(take(Channel::[Int]()))\n"),
 		p("channel_push_unbuffered", "ch := Channel::[Int]()\nch << 1\no(1)\n"),
 		p("channel_push_full", "ch := Channel::[Int](1)\nch << 1\nch << 2\no(1)\n"),
 		p("channel_iterate", "ch := Channel::[Int]()\nfor v in ch\n  o(v)\nend\n"),
 		p("channel_iterate_in_method", "def drain(ch: Channel[Int]): Int\n  var n: Int = 0\n  for v in ch\n    n = n + v\n  end\n  n\nend\no(drain(Channel::[Int]()))\n"),
 		p("select_nothing_ready", "a := Channel::[Int]()\nb := Channel::[Int]()\nselect\ncase v := <<a\n  o(v)\ncase b << 1\n  o(2)\nend\n"),
 		p("select_in_loop", "a := Channel::[Int]()\nloop\n  select\n  case v := <<a\n    o(v)\n  end\nend\n"),
-		p("await_sync_never_resolved", "async def never(ch: Channel[Int]): Int\n  <<ch\nend\nch := Channel::[Int]()\no(never(ch).await_sync)\n"),
-		p("await_in_async_never_resolved", "async def never(ch: Channel[Int]): Int\n  <<ch\nend\nasync def outer(ch: Channel[Int]): Int\n  await never(ch)\nend\nch := Channel::[Int]()\no(outer(ch).await_sync)\n"),
+		p("await_sync_never_resolved", "async def stuck(ch: Channel[Int]): Int\n  v := <<ch\n  1\nend\nch := Channel::[Int]()\no(stuck(ch).await_sync)\n"),
+		p("await_in_async_never_resolved", "async def stuck(ch: Channel[Int]): Int\n  v := <<ch\n  1\nend\nasync def outer(ch: Channel[Int]): Int\n  await stuck(ch)\nend\nch := Channel::[Int]()\no(outer(ch).await_sync)\n"),
 		p("waitgroup_wait", "wg := Sync::WaitGroup(1)\nwg.wait\no(1)\n"),
 		p("sleep_long", "sleep 60.seconds\no(1)\n"),
 		p("sleep_in_loop", "loop\n  sleep 10.milliseconds\nend\n"),
